@@ -52,6 +52,8 @@ _lib.mdb_env_open.argtypes = [_P, ctypes.c_char_p, ctypes.c_uint, ctypes.c_uint]
 _lib.mdb_env_close.argtypes = [_P]
 _lib.mdb_env_close.restype = None
 _lib.mdb_env_stat.argtypes = [_P, ctypes.POINTER(_Stat)]
+_lib.mdb_env_get_maxkeysize.argtypes = [_P]
+_lib.mdb_env_get_maxkeysize.restype = ctypes.c_int
 _lib.mdb_env_sync.argtypes = [_P, ctypes.c_int]
 _lib.mdb_txn_begin.argtypes = [_P, _P, ctypes.c_uint, ctypes.POINTER(_P)]
 _lib.mdb_txn_commit.argtypes = [_P]
@@ -233,6 +235,10 @@ class Environment:
         if self._closed:
             raise Error("Attempt to operate on closed/deleted/dropped object.")
         return Transaction(self, write=write, buffers=buffers)
+
+    def max_key_size(self):
+        """py-lmdb's Environment.max_key_size(): the longest key the library accepts (511 unless compiled otherwise)"""
+        return int(_lib.mdb_env_get_maxkeysize(self._env))
 
     def stat(self):
         st = _Stat()
